@@ -35,6 +35,18 @@ CHECKS = [
         "text": "For 11 with_fields_set classes (defaults, default_factory, default_as_set, init=False, InitVar, __post_init__ assignment, decorated/undecorated inheritance, aliases) every initial state (constructor with every argument subset, positional and keyword; deserialize with every key subset) and every sequence of set / unset / overwrite / assign / replace / dataclasses.replace operations is explored breadth-first on real objects until no new canonical state appears; fields_set, is_set, serialize() and serialize(exclude_unset=False) are compared with a set model in every state.",
         "note": "Values from a 2-element domain per field; the canonical state determines all futures so merging is sound; depth cap reported if hit.",
     },
+    {
+        "id": "C13", "engine": "E1", "design_ref": "DESIGN.md §5 C13",
+        "technique": "bounded exhaustive enumeration of unions (all ordered pairs of a 38-alternative pool, all 3-/4-permutations of a colliding core) x data x coercion with a self-composition oracle on the real code",
+        "text": "Every union is deserialized on the union of its alternatives' data (skeletons, <=1-deviation mutants, universal atoms), with and without coercion; the alternatives are deserialized individually by the real code and the union must accept iff one accepts, with a value == the first accepting one (class of some accepting alternative); serialization must equal the first class-matching alternative's. Discriminated unions (Annotated default/explicit/partial/non-overriding mapping, literal and str discriminator fields, inherited discriminator, TypedDict) are enumerated over every mapping key x body, with round trip; TaggedUnion over every tag subset.",
+        "note": "Oracle is the implementation itself on the alternatives (C01 vouches for them). Every union is checked from reset caches because Union[A,B]==Union[B,A] for typing (known finding of C09).",
+    },
+    {
+        "id": "C14", "engine": "E1", "design_ref": "DESIGN.md §5 C14",
+        "technique": "bounded exhaustive enumeration of (type, datum enriched with coercible strings, coercion mode) with a relational oracle (strict vs coerce) and a reference model extended with the documented coercion table",
+        "text": "For every type of the grammar and every datum (C01 data plus numeric strings, the 14 boolean words in three casings, near-misses, '' and whitespace at every position): strict-accepted implies coerce-accepted with an equal typed value (union-free, no fall-back field); the coerce=True outcome equals the reference model extended with the documented table at primitive positions only, so acceptance through any other route is flagged; the settings route equals the parameter route; wrong-typed and raising custom coercers give exactly the strict outcome, a right-typed one the model's.",
+        "note": "Trusted: reference model + the table as stated in the property (bool is not a number). Types with fall_back_on_default fields are exempt from the equal-value clause (an invalid field is accepted as its default in strict mode).",
+    },
 ]
 _PENDING = "check not built yet in this round (planned, see DESIGN.md §5); not claimed until it runs green"
-NOT_APPLICABLE = [{"property_id": f"C{i:02d}", "reason": _PENDING} for i in range(4, 20) if i not in (9, 15)]
+NOT_APPLICABLE = [{"property_id": f"C{i:02d}", "reason": _PENDING} for i in range(4, 20) if i not in (9, 13, 14, 15)]
